@@ -157,10 +157,41 @@ func verifC05(c *drv.Ctx) {
 	for _, cr := range ex.Crashes {
 		c.Infra("harness crashed under vs.Run: %s\n%s", cr.Value, cr.Stack)
 	}
+	if c.Shard == 0 {
+		// ONE filler used for 70000 probes in a row (more than 2^16), random source as it comes: whatever
+		// state a filler keeps between probes, no probe may leave the advertised ranges
+		bad, n := "", 0
+		exl := vs.Run(nil, func(s *vs.Sched) { s.Horizon = 1 << 60 }, func() {
+			f := NewPacketFiller()
+			req := &scan.Request{SrcIP: net.IP{10, 0, 0, 1}, DstIP: net.IP{10, 0, 0, 2}, SrcMAC: macs[0][0], DstMAC: macs[0][1], DstPort: 53}
+			for i := 0; i < 70000 && bad == ""; i++ {
+				b, err := c05fill(f, req)
+				n++
+				if err != nil || len(b) < 14+20+4 {
+					bad = fmt.Sprintf("probe %d: Fill failed: %v (%d bytes)", i+1, err, len(b))
+					break
+				}
+				if b[18] == 0 && b[19] == 0 {
+					bad = fmt.Sprintf("probe %d of one filler has IP id 0", i+1)
+				}
+				if sp := int(b[34])<<8 | int(b[35]); sp < 32768 || sp > 60999 {
+					bad = fmt.Sprintf("probe %d of one filler has source port %d, outside 32768..60999", i+1, sp)
+				}
+			}
+		})
+		c.Eval(n)
+		c.Set("long_run_probes_of_one_filler", n)
+		if bad != "" {
+			c.Fail("c05tcp:long-run", "70000 probes built by one filler: "+bad, map[string]any{"part": "c05tcp"})
+		}
+		for _, cr := range exl.Crashes {
+			c.Infra("long run crashed under vs.Run: %s", cr.Value)
+		}
+	}
 	c.R.Rule = fmt.Sprintf("%d cases = 3 forced outcomes of every math/rand draw {0, n-1, n/2} x 2 MAC pairs x 3 address spellings (4/4, 4/16, 16/16 bytes) x 3 address pairs x dst port {1,80,32767,32768,65535} x all 512 TCP flag sets (fewest flags first); "+
 		"thorough adds every destination port 0..65535 x {no flag, SYN, all nine} x the 3 forced outcomes; each case = real Fill in Ethernet mode and in VPN mode (2 frames); every case is distinct by construction; "+
 		"oracle = zzref decoders: requested MACs/IPs/port/flag set verbatim, IHL/data offset/total length consistent, IPv4 and TCP checksums (pseudo header) verify, "+
-		"VPN frame == Ethernet frame minus 14 bytes (and minus padding to 60), IP id != 0, source port in 32768..60999", cases)
+		"VPN frame == Ethernet frame minus 14 bytes (and minus padding to 60), IP id != 0; plus 70000 consecutive probes of ONE filler (more than 2^16) with the random source as it comes: id and source port stay in range, source port in 32768..60999", cases)
 	c.Set("max_cases_in_space", cases)
 	for rm := 0; rm < 3; rm++ {
 		if mm := seenMM[rm]; mm[1] >= 0 {
